@@ -24,7 +24,7 @@ DEPTHS = (1, 2, 4, 8, 32)
 
 def REQUIRED(tier):
     return ["files_cleaned", "hook:apply_mask", "hook:apply_method", "hook:apply_funcn", "mask_union_checks", "vectors:mad", "vectors:iqrm", "vector:all_equal", "vector:planted_outlier",
-            "file_samples_compared", "regime:multi_block", "roundtrip_checks", "freq:empty_list", "freq:outside_band", "freq:overlapping", "freq:limit_on_centre", "algebra_histories", "regime:subrange_cleaned"]
+            "file_samples_compared", "regime:multi_block", "roundtrip_checks", "freq:empty_list", "freq:outside_band", "freq:overlapping", "freq:limit_on_centre", "algebra_histories", "regime:subrange_cleaned", "regime:negative_float_samples", "regime:float_mask_value_outside_0_255", "custom_function_input_checks"]
 
 
 def cases(tier, seed):
@@ -164,6 +164,10 @@ def _file(case, ctx):
             X[rng.integers(0, N, size=3), c] = top                                            # skew/kurtosis spikes
         else:
             X[:, c] = top if top > 1 else 1                                                   # stuck
+    neg32 = nbits == 32 and case["seed"] % 2 == 1
+    if neg32:   # float samples are signed: a band whose levels are negative (e.g. after baseline removal)
+        X = X - 2.0 * top
+        ctx.count("regime:negative_float_samples")
     X = X.astype(np.float32 if nbits == 32 else np.uint8)
     d = os.path.join(ctx.tmp, f"f{case['seed']}")
     os.makedirs(d, exist_ok=True)
@@ -180,7 +184,10 @@ def _file(case, ctx):
     cust_k = int(rng.integers(0, 3))
     cust_idx = rng.choice(nch, size=2, replace=False)
 
+    seen_by_custom = []
+
     def custom(mask):
+        seen_by_custom.append(np.array(mask, dtype=bool).copy())
         out = np.zeros(mask.size, dtype=bool)
         if cust_k == 1:
             out[cust_idx] = True
@@ -189,6 +196,9 @@ def _file(case, ctx):
         return out
 
     mval = None if rng.random() < 0.5 else float(rng.integers(0, top + 1))
+    if mval is not None and nbits == 32 and case["seed"] % 3 == 0:
+        mval = float(np.random.default_rng([case["seed"], 163]).choice([-1.0, -37.5, -1000.0, 0.125, 1e6]))
+        ctx.count("regime:float_mask_value_outside_0_255")
     gulp = int(rng.choice([1, 7, max(1, N // 3), N, 10 * N]))
     srng = np.random.default_rng([case["seed"], 161])
     start, nsel = 0, N
@@ -242,6 +252,22 @@ def _file(case, ctx):
     if cust_k == 1 and not np.all(np.array(mask.custom_mask, dtype=bool)[cust_idx]):
         ctx.violation("custom-mask", "custom mask not recorded", one)
         return
+    if cust_k:
+        # the custom function is documented to receive "the existing mask": in clean_rfi that is user OR statistics
+        ctx.count("custom_function_input_checks")
+        existing = np.array(mask.user_mask, dtype=bool) | got_stats
+        if len(seen_by_custom) != 1 or not np.array_equal(seen_by_custom[0], existing):
+            miss = np.flatnonzero(existing & ~seen_by_custom[0])[:6].tolist() if seen_by_custom else None
+            ctx.violation("custom-function-input", f"custom function called {len(seen_by_custom)} time(s); the mask it was given lacks already flagged channels {miss} (user|stats)", one)
+            return
+        want_c = np.zeros(nch, dtype=bool)
+        if cust_k == 1:
+            want_c[cust_idx] = True
+        else:
+            want_c[1:] = existing[:-1]
+        if not np.array_equal(np.array(mask.custom_mask, dtype=bool), want_c):
+            ctx.violation("custom-mask-value", f"custom mask {np.flatnonzero(mask.custom_mask)[:8].tolist()} != f(user|stats) {np.flatnonzero(want_c)[:8].tolist()}", one)
+            return
     # ---- cleaned file
     dd, hl, raw = sigfile.parse_file(name)
     if dd["nbits"] != nbits or len(raw) * 8 != nsel * nch * nbits:
@@ -279,7 +305,7 @@ def _file(case, ctx):
                 return
             if keep.any():
                 med = float(np.median(Xf[:, keep].mean(axis=0)))
-                if abs(v0 - med) > 1.0 + 1e-6 * max(1.0, abs(med)):
+                if abs(v0 - med) > (1.0 if nbits != 32 else 0.0) + 1e-4 * max(1.0, abs(med)):
                     ctx.violation("default-mask-value", f"default mask value {v0} is not within one level of the median of unmasked channel means {med}", one)
                     return
     if cm.any() and keep.any():
